@@ -45,7 +45,7 @@ Definition set_flags (P : params) (prot nspop : bool) : params := {|
   g_reference := g_reference P; g_version := g_version P; g_slash := g_slash P; g_barth := g_barth P;
   g_nsname := g_nsname P; g_nsaffix := g_nsaffix P; g_fo_base0 := g_fo_base0 P;
   prm_leak_parent := prm_leak_parent P; prm_leak_child := prm_leak_child P;
-  prm_alias_bounded := prm_alias_bounded P; prm_ns_pop := nspop |}.
+  prm_alias_bounded := prm_alias_bounded P; prm_ns_pop := nspop; prm_nullns := prm_nullns P |}.
 
 Lemma protect_refuted : forall nspop,
   tree_plain w_prot = true /\ interp_spec_pre w_prot <> Unspec /\
